@@ -257,7 +257,7 @@ func cmdCheck(args []string) int {
 	}
 	if len(jobs) > 0 {
 		for _, j := range jobs {
-			if len(j.query) > 800*1024 {
+			if len(j.query) > 2048*1024 {
 				fmt.Fprintf(os.Stderr, "CAP: query for %s is %d bytes\n", j.o.Name, len(j.query))
 				engineErr = true
 			}
